@@ -68,7 +68,7 @@ fn apply(store: &Shared<RefStore>, act: &Act) -> (Vec<(String, String)>, String)
     match act {
         Act::Register { rp, user } => {
             let org = REG_ORGS[*rp as usize % 2];
-            let c = super::c02::Case { challenge: challenges()[4].clone(), user: *user, org, algs: 1, mode: Mode::Default, counter: false, memory_store: false, id_len: None, rk: true };
+            let c = super::c02::Case { challenge: challenges()[4].clone(), user: *user, org, algs: 1, mode: Mode::Default, counter: false, memory_store: false, id_len: None, rk: true, decor: false };
             let mut client = mk_client(store.clone(), ScriptedUv::consenting(Log::new()), org, &AuthCfg::default());
             let rc = super::c02::check_registration(&mut client, &|| store.recs(), &c);
             (rc.findings, format!("register:{}", rc.outcome))
@@ -90,7 +90,21 @@ fn apply(store: &Shared<RefStore>, act: &Act) -> (Vec<(String, String)>, String)
             };
             let eligible: Vec<&Rec> = before.iter().filter(|r| r.rp == rp_eff && list.as_ref().map_or(true, |l| l.is_empty() || l.contains(&r.id))).collect();
             let ch = challenges()[*challenge as usize % challenges().len()].clone();
-            let opts = request_options(Auth { rp_id: rp_arg.map(|s| s.to_string()), challenge: ch.clone(), allow: list.clone(), uv: uvr(*uv), extensions: None });
+            let mut opts = request_options(Auth { rp_id: rp_arg.map(|s| s.to_string()), challenge: ch.clone(), allow: list.clone(), uv: uvr(*uv), extensions: None });
+            // irrelevant members: transports hints on the descriptors (disjoint from / overlapping with
+            // the authenticator's own), hints, attestation preference, timeout – decided by the
+            // challenge index and mode so that both decorated and plain requests occur for every shape
+            if (*challenge as usize + *uv as usize) % 2 == 1 || *mode == Mode::Extra {
+                use webauthn::AuthenticatorTransport as T;
+                if let Some(l) = opts.public_key.allow_credentials.as_mut() {
+                    for (i, d) in l.iter_mut().enumerate() {
+                        d.transports = Some(if (i + *uv as usize) % 2 == 0 { vec![T::Usb, T::Nfc] } else { vec![T::Internal] });
+                    }
+                }
+                opts.public_key.hints = Some(vec![webauthn::PublicKeyCredentialHints::Hybrid]);
+                opts.public_key.attestation = webauthn::AttestationConveyancePreference::Enterprise;
+                opts.public_key.timeout = Some(1);
+            }
             let log = Log::new();
             let mut client = mk_client(Logging { inner: store.clone(), log: log.clone() }, ScriptedUv::consenting(log.clone()), org, &AuthCfg::default());
             let res = authenticate(&mut client, org, *mode, opts);
